@@ -35,6 +35,7 @@ type hGenVal struct {
 type hGenAcc struct {
 	Key     int   `json:"key"`
 	Balance int64 `json:"bal"`
+	Dust    int64 `json:"dust,omitempty"`  // balance in a second denomination ("dust"): fees may name any denomination
 	NoPub   bool  `json:"nopub,omitempty"` // account stored without a public key
 	// PubOf-1 is the key index whose public key is stored on this account instead of its own (0 = its own): a
 	// genesis document may register any key under any address
@@ -46,7 +47,19 @@ type hFeeMulti struct {
 	Mult int64  `json:"mult"`
 }
 
+// maxGas: the block gas limit handed over at InitChain (-1 = none, the default)
+func (g *hGenesis) maxGas() int64 {
+	if g.MaxGas > 0 {
+		return g.MaxGas
+	}
+	return -1
+}
+
 type hGenesis struct {
+	// MaxGas > 0: the chain starts with a block gas limit (consensus parameter). Only the differential check C01
+	// draws it: once a block is out of gas every later transaction is refused, which the models of the other
+	// properties do not describe.
+	MaxGas     int64     `json:"max_gas,omitempty"`
 	Seed       int       `json:"seed"`
 	Validators []hGenVal `json:"validators"`
 	Accounts   []hGenAcc `json:"accounts"`
@@ -97,7 +110,8 @@ type hTx struct {
 	Key      string `json:"pkey,omitempty"` // parameter key
 	Fee      int64  `json:"fee"`            // offset to the required fee (0 = exactly required)
 	FeeAbs   bool   `json:"fee_abs,omitempty"`
-	SignWith int    `json:"sign_with"` // -1 = From
+	FeeDust  int64  `json:"fee_dust,omitempty"` // the fee also names this much of the second denomination
+	SignWith int    `json:"sign_with"`          // -1 = From
 	KeyInSig bool   `json:"key_in_sig,omitempty"`
 	Memo     string `json:"memo,omitempty"`
 	Entropy  int64  `json:"entropy"`
@@ -226,6 +240,9 @@ func buildGenesis(g *hGenesis, pool []simKey) (*simGenesis, error) {
 		}
 		seenAcc[ga.Key] = true
 		acc := &authtypes.BaseAccount{Address: pool[ga.Key].Addr, Coins: sdk.NewCoins(sdk.NewCoin(sdk.DefaultStakeDenom, sdk.NewInt(ga.Balance)))}
+		if ga.Dust > 0 {
+			acc.Coins = acc.Coins.Add(sdk.NewCoins(sdk.NewCoin(simDustDenom, sdk.NewInt(ga.Dust))))
+		}
 		if !ga.NoPub {
 			acc.PubKey = pool[ga.Key].Pub
 			if ga.PubOf > 0 {
@@ -378,6 +395,8 @@ type chain struct {
 	// twin mode (C01): every transaction is delivered; its Mode and the block's queries describe extra
 	// read-only traffic that only the second instance receives (issued by the oracle)
 	deliverAll bool
+	// preCommit, when set, runs right before the application's Commit of block index bi (C13: database snapshot)
+	preCommit func(bi int)
 }
 
 func (ch *chain) pruning() stypes.PruningOptions {
@@ -454,7 +473,7 @@ func (ch *chain) run(o chainOracle) *Violation {
 	ci.Panic = safeCall(func() {
 		ci.Init = ch.app.InitChain(abci.RequestInitChain{ChainId: simChainID, Time: ch.now,
 			ConsensusParams: &abci.ConsensusParams{
-				Block:     &abci.BlockParams{MaxBytes: 1 << 20, MaxGas: -1},
+				Block:     &abci.BlockParams{MaxBytes: 1 << 20, MaxGas: ch.p.Gen.maxGas()},
 				Evidence:  &abci.EvidenceParams{MaxAge: 100000},
 				Validator: &abci.ValidatorParams{PubKeyTypes: []string{tmtypes.ABCIPubKeyTypeEd25519}},
 			}})
@@ -624,6 +643,9 @@ func (ch *chain) run(o chainOracle) *Violation {
 		// Commit
 		ci = &callInfo{Kind: "commit", Height: h, Time: ch.now, BlockIx: bi}
 		ci.Before = ch.takeBefore()
+		if ch.preCommit != nil {
+			ch.preCommit(bi)
+		}
 		ci.Panic = safeCall(func() { ci.Commit = ch.app.Commit() })
 		if ci.Panic == nil {
 			ci.After = ch.viewAfter()
